@@ -48,15 +48,15 @@ def tooLarge (floatSize : Nat) (v : Int) : Bool := !exactIn (precision floatSize
 def documentedLargeInput : List (Nat × Nat) := [(4, 2 ^ 24 + 1), (8, 2 ^ 53 + 1)]
 
 /-- the region where unyt violates the dtype statement of C17 — the literal exclusion list of
-    `route_dtype_partial`, in one-to-one correspondence with the `dtype|…` entries of
-    `known_findings.d/C17.json` (each line is a listed finding):
-    * `in_base` (`in_cgs`, `in_mks`) returns float64 for every integer narrower than 64 bits;
+    `route_dtype_partial`, in one-to-one correspondence with the `known` `dtype|…` entries of
+    `known_findings.d/C17.json`:
     * `to_equivalent` across dimensions widens every narrow dtype to 64-bit components;
-    * `to_value` on a complex or long-double `unyt_quantity` goes through `float(…)`. -/
+    * `to_value` on a long-double / complex256 `unyt_quantity` hands back a Python scalar
+      (53-bit components).
+    (`in_base` on narrow integers and `to_value` on complex quantities were here until the
+    `fix:` patches C17-02 / C17-04.) -/
 def knownExcluded (r : Route) (d : Dtype) (q : Bool) : Bool :=
-  (r == .inBase && d.isInt && d.size != 8)
-  || (r == .toEquivalent && ((d.isInt && d.size != 8) || d == ⟨.f, 2⟩ || d == ⟨.f, 4⟩ || d == ⟨.c, 8⟩))
-  || (r == .toValue && q && (d.kind == .c || d == ⟨.f, 16⟩))
-
+  (r == .toEquivalent && ((d.isInt && d.size != 8) || d == ⟨.f, 2⟩ || d == ⟨.f, 4⟩ || d == ⟨.c, 8⟩))
+  || (r == .toValue && q && (d == ⟨.c, 32⟩ || d == ⟨.f, 16⟩))
 
 end Unyt.Ref.C17
